@@ -16,6 +16,7 @@ pub mod c12;
 pub mod c13;
 pub mod c14;
 pub mod c15;
+pub mod c16;
 pub mod c17;
 pub mod c18;
 pub mod c19;
@@ -39,6 +40,7 @@ pub fn dispatch(id: &str, opts: &Opts) -> Option<i32> {
         "C13" => run_property(&c13::C13, opts),
         "C14" => run_property(&c14::C14, opts),
         "C15" => run_property(&c15::C15, opts),
+        "C16" => run_property(&c16::C16, opts),
         "C17" => run_property(&c17::C17, opts),
         "C18" => run_property(&c18::C18, opts),
         "C19" => run_property(&c19::C19, opts),
